@@ -347,7 +347,13 @@ func vpLogMaybeAppend(ls, lu, maxK int) {
 	vpAssume(prevI >= l.committed)
 	// V-hb analogue: the leader's commit index is within what it sent or known
 	a := logSlice{term: pt, prev: entryID{term: prevT, index: prevI}, entries: ents}
+	// what an earlier Ready handed to the application / append thread
+	handed := vpHanded{ents: l.unstable.entries}
+	for _, e := range handed.ents {
+		handed.slots = append(handed.slots, vpSlotOf(e))
+	}
 	lastNew, ok := l.maybeAppend(a, commit)
+	handed.check("M4/handed-out-entries-never-rewritten")
 	p := vpViewOf(l)
 	matched := vpAnd(prevI+1 >= v.first, prevI <= v.last, v.termAt(prevI) == prevT)
 	vpAssert(ok == matched, "M1/append-iff-prev-matches")
@@ -393,6 +399,7 @@ func vpLogMaybeAppend(ls, lu, maxK int) {
 }
 
 func vpH_log_maybeAppend_1_1_2() { vpLogMaybeAppend(1, 1, 2) }
+func vpH_log_maybeAppend_0_2_1() { vpLogMaybeAppend(0, 2, 1) }
 func vpH_log_maybeAppend_2_2_2() { vpLogMaybeAppend(2, 2, 2) }
 
 func vpLogUnstableOps(ls, lu int) {
